@@ -87,6 +87,16 @@ func W7Surrogates(grid int, sink Sink) {
 			buf = append(buf, '"')
 			emit(hi, k, 0)
 		}
+		// six bytes after the high surrogate that are ALMOST a low-surrogate escape: exactly one of
+		// the two prefix bytes is wrong (seeded change C06r2-m1 weakened the look-ahead test)
+		almost := []string{`\ndead`, `_udead`, `\\dc00`, `\"dead`, `\Udc00`, `xudfff`, `\bdeaf`, ` udc01`, `\/dddd`}
+		for k, ptn := range almost {
+			buf = append(buf[:0], '"')
+			buf = u4esc(buf, hi, (hi>>1)&1)
+			buf = append(buf, ptn...)
+			buf = append(buf, '"')
+			emit(hi, 50+k, 0)
+		}
 		// a pseudo-random valid low
 		lo := 0xdc00 + (hi*7919)%0x400
 		buf = append(buf[:0], '"', 'p')
